@@ -245,6 +245,59 @@ func NewDriver(cfg Config) *Driver {
 	return d
 }
 
+// NewDriverOnDB is NewDriver over a caller-supplied (e.g. write-logging) database.
+func NewDriverOnDB(cfg Config, db dbm.DB) *Driver {
+	d := &Driver{Cfg: cfg, DB: db, Index: NewTxIndex(), Time: Epoch, NumKeys: 16}
+	d.App = NewApp(d.DB, cfg, d.Index)
+	res := d.App.InitChain(InitChainRequest(cfg))
+	d.InitVals = res.Validators
+	set, errs := TMSet{}.ApplyUpdates(res.Validators)
+	d.RuleErrs = append(d.RuleErrs, errs...)
+	d.PrevSet, d.CurSet, d.NextSet = nil, set, set.Clone()
+	return d
+}
+
+// TMState is Tendermint's side of the contract at a block boundary.
+type TMState struct {
+	Height                   int64
+	Time                     time.Time
+	PrevSet, CurSet, NextSet TMSet
+	Indexed                  map[string]int64
+}
+
+// TMState snapshots the driver's Tendermint-side state.
+func (d *Driver) TMState() TMState {
+	st := TMState{Height: d.Height, Time: d.Time, PrevSet: d.PrevSet.Clone(), CurSet: d.CurSet.Clone(), NextSet: d.NextSet.Clone(), Indexed: map[string]int64{}}
+	d.Index.mu.Lock()
+	for k, v := range d.Index.heights {
+		st.Indexed[k] = v
+	}
+	d.Index.mu.Unlock()
+	return st
+}
+
+// ResumeDriver opens an application on an existing database (after a crash) with Tendermint's
+// state st; if the application reports height 0 the chain is initialised again, as Tendermint's
+// handshake does.
+func ResumeDriver(cfg Config, db dbm.DB, st TMState) (d *Driver, err error) {
+	defer func() {
+		if r := recover(); r != nil {
+			err = fmt.Errorf("%v", r)
+		}
+	}()
+	d = &Driver{Cfg: cfg, DB: db, Index: NewTxIndex(), NumKeys: 16}
+	for k, v := range st.Indexed {
+		d.Index.heights[k] = v
+	}
+	d.App = NewApp(db, cfg, d.Index)
+	d.Height, d.Time, d.PrevSet, d.CurSet, d.NextSet = st.Height, st.Time, st.PrevSet.Clone(), st.CurSet.Clone(), st.NextSet.Clone()
+	if d.App.LastBlockHeight() == 0 {
+		res := d.App.InitChain(InitChainRequest(cfg))
+		d.InitVals = res.Validators
+	}
+	return d, nil
+}
+
 // Restart closes the app and reopens it from the same database (new BaseApp, new keepers).
 func (d *Driver) Restart() {
 	d.App.Close()
